@@ -237,11 +237,13 @@ def sync(ctx: Ctx, rule="R-C11-SYNC") -> None:
               instance="actor: topic add")
     ir = ctx.func(f"{ROUTER}.include_router")
     loops = [n for n in ast.walk(ir.node) if isinstance(n, ast.For) and any(isinstance(c, ast.Call) and dotted(c.func) == "self._forget_topic" for c in ast.walk(n))]
-    ok = len(loops) == 1 and unparse(loops[0].iter) == "router.actors.items()"
+    ok = len(loops) == 1 and C.utext(ir, loops[0].iter, calls="all") == "router.actors.items()" and isinstance(loops[0].target, ast.Tuple) and len(loops[0].target.elts) == 2
     if ok:
         nv, av = [dotted(e) for e in loops[0].target.elts]
         c = [c for c in ast.walk(loops[0]) if isinstance(c, ast.Call) and dotted(c.func) == "self._forget_topic"][0]
-        ok = [unparse(x) for x in c.args] == [nv, f"{av}.queue"]
+        ft_params = [p_.arg for p_ in ctx.func(f"{ROUTER}._forget_topic").params()][1:]
+        got = [C.arg(c, i, ft_params[i]) if i < len(ft_params) else None for i in range(2)]
+        ok = [unparse(x) if x is not None else None for x in got] == [nv, f"{av}.queue"]
     ctx.check(ok, rule, ir, "include_router evicts every included name (with its new queue)", "for name, actor in router.actors.items(): _forget_topic(name, actor.queue)",
               "include_router does not evict each included actor name from its previous queue", instance="include_router: eviction loop")
     up = [n for n in ast.walk(ir.node) if isinstance(n, ast.For) and unparse(n.iter) == "router.topics_by_queue.items()"]
@@ -254,7 +256,12 @@ def sync(ctx: Ctx, rule="R-C11-SYNC") -> None:
     ctx.check(not alias, rule, ir, "include_router never stores another router's topic set object", "sets are merged by update / copied",
               f"include_router stores the included router's own set object ({unparse(alias[0])[:80] if alias else ''}): both routers then share one topic set, and a later registration on one of them "
               "silently changes the topics the other one consumes", node=alias[0] if alias else None, instance="include_router: no aliasing")
-    ctx.check(any(isinstance(c, ast.Call) and unparse(c) == "self.actors.update(router.actors)" for c in ast.walk(ir.node)), rule, ir, "include_router unions the actors", "actors.update(router.actors)",
+    took = any(isinstance(c, ast.Call) and unparse(c.func) == "self.actors.update" and len(c.args) == 1 and C.utext(ir, c.args[0], calls="all") == "router.actors" for c in ast.walk(ir.node))
+    for lp_ in [n for n in ast.walk(ir.node) if isinstance(n, ast.For) and C.utext(ir, n.iter, calls="all") == "router.actors.items()" and isinstance(n.target, ast.Tuple) and len(n.target.elts) == 2]:
+        nv_, av_ = [dotted(e) for e in lp_.target.elts]
+        # for name, actor in router.actors.items(): self.actors[name] = actor   (unconditionally, for every included actor)
+        took = took or any(isinstance(st_, ast.Assign) and len(st_.targets) == 1 and unparse(st_.targets[0]) == f"self.actors[{nv_}]" and dotted(st_.value) == av_ for st_ in lp_.body)
+    ctx.check(took, rule, ir, "include_router unions the actors", "actors.update(router.actors)",
               "include_router does not take over the included router's actors", instance="include_router: actors")
     ft = ctx.func(f"{ROUTER}._forget_topic")
     g = ctx.cfg(ft)
